@@ -318,10 +318,14 @@ class LSML_Supervised(_BaseLSML, TransformerMixin):
                     ' version 0.6.3 and will be removed in 0.7.0'
                     '', FutureWarning)
       self.n_constraints = num_constraints
+      num_constraints = 'deprecated'
     else:
       self.n_constraints = n_constraints
-    # Avoid test get_params from failing (all params passed sholud be set)
-    self.num_constraints = 'deprecated'
+    # Avoid test get_params from failing (all params passed sholud be set).
+    # the placeholder is stored as received: clone requires the stored
+    # parameter to be the object that was passed (an unpickled estimator
+    # carries an equal but distinct string)
+    self.num_constraints = num_constraints
     self.weights = weights
 
   def fit(self, X, y):
